@@ -295,6 +295,8 @@ type Property struct {
 	Assumptions []string
 	// Build variants needed: "plain", "race", "checkptr"
 	Builds []string
+	// RlimitAS, when non-zero, limits the address space of the (non-race) worker processes.
+	RlimitAS uint64
 }
 
 var registry = map[string]*Property{}
